@@ -1,7 +1,7 @@
 (** (round-3 extended universe) Refuted witnesses for the datetime options at dict keys
     and set members, for truncation before zone conversion and for datetime keys
     under key cleaning with a precision; witnesses that every part of the new guard is needed (the raising corners
-    C11-TRUNC-DATE, C11-NUMGROUP-DATETIME, C11-SIG-TIMEDELTA-SET, C11-SIG0-NAN) and for C11-ENUM-NONE;
+    C11-TRUNC-DATE, C11-NUMGROUP-DATETIME, C11-SIG-TIMEDELTA-SET, C11-SIG0-NAN); C11-ENUM-NONE is fixed (positive Example);
     non-vacuity examples with dyadic floats, datetimes, nan objects, Decimals, dates and Enum members inside
     structures: the relations, the guards and the hypotheses of the theorems are satisfiable together. *)
 From Coq Require Import List ZArith NArith Bool Arith String Lia.
@@ -120,15 +120,13 @@ Theorem y_items_guard_refuted :
             run_optF xud0 yops_shift xcdef XFnumty t t = Err EType /\ guard XFnumty xcdef t = false.
 Proof. exists (VList [VAtom (ADate 2024 6 1); xvi 1]). repeat split; reflexivity. Qed.
 
-(* C11-ENUM-NONE: None against a member whose value is None IS reported under use_enum_value (the None test of _diff
-   comes before any comparer): [enum_rel] excludes it *)
-Theorem y_enum_none_refuted :
-  exists a b, atom_eqb (unwrap XFenum a) (unwrap XFenum b) = true /\ enum_rel XFenum a b = false /\
-              exists r, xrun xcdef XFenum (VAtom a) (VAtom b) = Ok r /\ fst r <> [].
-Proof.
-  exists (AEnum (s2p "Opt") (s2p "NOTHING") 0 ENone), ANone. split; [reflexivity|]. split; [reflexivity|].
-  eexists. split; [vm_compute; reflexivity|cbn; discriminate].
-Qed.
+(* C11-ENUM-NONE (fixed in c9e614d: the None test of _diff reports only when `t1 is not t2`): None against a member
+   whose value is None is related by [enum_rel] under use_enum_value, and the run reports nothing *)
+Example y_enum_none_fixed :
+  let a := AEnum (s2p "Opt") (s2p "NOTHING") 0 ENone in
+  enum_rel XFenum a ANone = true /\ altL XFenum a ANone = true /\ altL XFenum ANone a = true /\
+  xrun xcdef XFenum (VAtom a) (VAtom ANone) = Ok ([], []) /\ xrun xcdef XFenum (VAtom ANone) (VAtom a) = Ok ([], []).
+Proof. repeat split; reflexivity. Qed.
 (* two members of ONE class with the same value (aliases do not exist as separate members; here: different names) are
    reported through the .name child: [enum_rel] excludes them *)
 Theorem y_enum_same_class_refuted :
